@@ -966,21 +966,23 @@ class _FunctionInformationCollector(ast.RopeNodeVisitor):
 
     @contextmanager
     def _handle_conditional_context(self, node):
+        old_conditional = self.conditional
         if self.start <= node.lineno <= self.end:
             self.conditional = True
         try:
             yield
         finally:
-            self.conditional = False
+            self.conditional = old_conditional
 
     @contextmanager
     def _handle_loop_context(self, node):
+        old_loop_depth = self.loop_depth
         if node.lineno < self.start:
             self.loop_depth += 1
         try:
             yield
         finally:
-            self.loop_depth -= 1
+            self.loop_depth = old_loop_depth
 
 
 def _get_argnames(arguments):
